@@ -7,13 +7,15 @@ Not decided: closure, isometry and permutation correctness (numerical search ove
   * every name and resolved call in those routines resolves with a compatible argument list;
   * operator kinds: the Cartesian rotation of a generated operation is lattice . rot . inverse-lattice in that
     order, products/inverses of operations compose integer rotations with integer rotations and Cartesian with
-    Cartesian, and the translation is transformed by the integer rotation (unit-cell coordinates).
+    Cartesian, and the translation is transformed by the integer rotation (unit-cell coordinates);
+  * operator side: wherever a rotation multiplies a vector or tensor (vector spins in gengroup, directions, positions,
+    eigenvectors) it is the left factor, or is transposed on the right -- ``np.dot(v, R)`` applies the inverse operation.
 """
 import ast
 
 from ..model import AnalysisError, unparse, walk_local
 from ..engines import coordkind
-from ._common import dim_generic, names_and_calls_resolve, groupop_composition_order
+from ._common import dim_generic, names_and_calls_resolve, groupop_composition_order, rotations_from_left
 
 SCOPE = [('crystal', 'maptranslation'), ('crystal', 'GroupOp.'), ('crystal', 'Crystal.__init__'),
          ('crystal', 'Crystal.gengroup'), ('crystal', 'Crystal.genpoint'), ('crystal', 'Crystal.genWyckoffsets'),
@@ -82,6 +84,8 @@ def run(model, rep, tier):
                    qual='GroupOp.' + m)
     rep.floor('GroupOp algebra fields typed', n, 7)
     groupop_composition_order(model, rep)
+    # rotations (of spins, directions, positions, eigenvectors) act from the left throughout crystal.py
+    rotations_from_left(model, rep, [('crystal', '')], min_instances=12)
     # NOSYM branch goes through GroupOp.ident with the crystal's own basis
     init = model.func('crystal', 'Crystal.__init__')
     ns = [x for x in walk_local(init) if isinstance(x, ast.If) and unparse(x.test) == 'NOSYM']
@@ -107,6 +111,9 @@ BREAKERS = [
     ('onsager/crystal.py', "dim = len(basis[0][0])\n        return cls(rot=np.eye(dim, dtype=int), trans=np.zeros(dim), cartrot=np.eye(dim),",
      "return cls(rot=np.eye(3, dtype=int), trans=np.zeros(3), cartrot=np.eye(3),", 'dimension-generic'),
 ]
+BREAKERS.append(('onsager/crystal.py', "else np.dot(cartrot, s)", "else np.dot(s, cartrot)", 'operator-side'))
+BREAKERS.append(('onsager/crystal.py', "return np.dot(g.cartrot, direc)", "return np.dot(direc, g.cartrot)", 'operator-side'))
 NEUTRALS = [
     ('onsager/crystal.py', "origin = np.zeros(self.dim, dtype=int)", "origin = np.zeros(len(self.lattice), dtype=int)"),
+    ('onsager/crystal.py', "return np.dot(g.cartrot, direc)", "return np.dot(direc, g.cartrot.T)"),
 ]
